@@ -2,8 +2,8 @@
    parameter is instantiated in the runner by the GM/T 0002 specification (SM4Spec).
    Directives: those of ExtrOcamlBasic only; nat, positive, N stay inductive. *)
 From Coq Require Import Extraction ExtrOcamlBasic List NArith.
-From GmsmVerif Require Import Lib.Outcome SM4.SM4Spec SM4.GCMModel.
+From GmsmVerif Require Import Lib.Outcome SM4.SM4Spec SM4.ModesModel SM4.GCMModel SM4.GCMMem.
 Extraction Language OCaml.
 Extraction "sm4gcm_model.ml"
-  Sm4GCM GCMEncrypt GCMDecrypt GHASH GetY0 incr multiplication GetH gcm_run mkCall
+  Sm4GCM GCMEncrypt GCMDecrypt GHASH GetY0 incr multiplication GetH gcm_run mkCall Sm4GCM_mem mkSlice
   sm4_encrypt_block.
